@@ -160,6 +160,7 @@ type World struct {
 	callSeq int
 	nMarker int
 	tag     string
+	desiredValues map[string]ociauth.Scope // the caller's own Scope values, one per desired set
 }
 
 // NewWorld creates an empty world whose scripted choices come from rng.
